@@ -364,6 +364,7 @@ var smtFunRet = map[string]Sort{
 	"ktag": SInt, "pfx": SBool, "krange": SBool, "sfx": SBool, "klt": SBool,
 	"acc_str": SStr, "val_str": SStr, "acc_of": SBytes, "val_of": SBytes, "acc_ok": SBool, "val_ok": SBool,
 	"modaddr": SBytes, "blocked": SBool, "denom_ok": SBool, "ismod": SBool,
+	"numstr": SStr, "decstr": SStr, "urlunesc": SStr, "urlunesc_ok": SBool,
 	"stk_exists": SBool, "stk_status": SInt, "stk_tokens": SInt, "stk_dshares": SDec, "stk_jailed": SBool,
 	"stk_hasdel": SBool, "stk_delshares": SDec, "stk_total_bonded": SInt,
 }
@@ -515,6 +516,21 @@ func (ev *Evaluator) call(e *Expr) Val {
 			t = m.GetG(e.Args[0].Name, gs)
 		}
 		return t
+	case "json":
+		// json("Type", leaf values...): the JSON encoding function of a response struct
+		if len(e.Args) < 1 || e.Args[0].Op != "str" {
+			ev.fail("json(\"Type\", fields...)")
+		}
+		var ts []*Term
+		var sorts []Sort
+		for _, a := range e.Args[1:] {
+			t := ev.term(ev.Eval(a))
+			ts = append(ts, t)
+			sorts = append(sorts, t.Sort)
+		}
+		fn := "json_" + sanitize(e.Args[0].Name)
+		E.D.Fun(fn, sorts, SBytes)
+		return App(SBytes, fn, ts...)
 	case "arr":
 		// arr(seq, "Leaf.Path"): the per-leaf array of a by-value sequence (contract views)
 		if len(e.Args) != 2 || e.Args[1].Op != "str" {
@@ -606,10 +622,30 @@ func (ev *Evaluator) call(e *Expr) Val {
 		if strings.HasPrefix(e.Name, "stk_") {
 			E.declStaking()
 		}
+		switch e.Name {
+		case "numstr":
+			E.D.Fun("numstr", []Sort{SInt}, SStr)
+		case "decstr":
+			E.D.Fun("decstr", []Sort{SDec}, SStr)
+		case "urlunesc":
+			E.D.Fun("urlunesc", []Sort{SStr}, SStr)
+		case "urlunesc_ok":
+			E.D.Fun("urlunesc_ok", []Sort{SStr}, SBool)
+		}
 		return App(s, e.Name, targs()...)
 	}
 	if gs, ok := ghostFuns[e.Name]; ok {
 		return gs(ev, targs())
+	}
+	// any function declared so far by the models (e.g. json_<Type>): result sort from its declaration
+	E.D.mu.Lock()
+	decl, declared := E.D.seen[e.Name]
+	E.D.mu.Unlock()
+	if declared && strings.HasPrefix(decl, "(declare-fun ") {
+		parts := splitSexp(decl[1 : len(decl)-1])
+		if len(parts) == 4 {
+			return App(Sort(parts[3]), e.Name, targs()...)
+		}
 	}
 	ev.fail("unknown function %s", e.Name)
 	return nil
